@@ -287,10 +287,23 @@ type progCase struct {
 	corpus   bool // fixed corpus: checker must validate
 	gen      *program
 	usesDiv  bool
+	probeSrc string // program with the same inputs that returns the divisor(s) of the raw divisions ("" = none known)
 	usesMult bool
 }
 
 var reBuilderFrame = regexp.MustCompile(`compiler/circuits\.(New[A-Za-z]+)\(`)
+// probes of the fixed corpus: the divisor of every division with a possibly
+// zero divisor
+var fixedProbes = map[string]string{
+	"div-small":          "package main\nfunc main(a, b uint5) uint5 { return b }\n",
+	"sdiv-small":         "package main\nfunc main(a, b int5) int5 { return b }\n",
+	"udiv7":              "package main\nfunc main(a, b uint7) uint7 { return b }\n",
+	"udiv2":              "package main\nfunc main(a, b uint2) uint2 { return b }\n",
+	"udiv-const-operand": "package main\nfunc main(a uint2, b uint2) uint2 { return a / uint2(3) }\n",
+}
+
+var reSimpleDiv = regexp.MustCompile(`return a [/%] b\b`)
+
 var reDivOp = regexp.MustCompile(`[/%]`)
 var reComment = regexp.MustCompile(`(?m)//.*$`)
 
@@ -331,7 +344,11 @@ func loadRepoCorpus(tier string) []progCase {
 		if err != nil {
 			continue
 		}
-		res = append(res, progCase{name: "repo:" + f, src: string(b), usesDiv: textUsesDiv(string(b)),
+		probe := ""
+		if reSimpleDiv.MatchString(string(b)) && strings.Count(reComment.ReplaceAllString(string(b), ""), "return") == 1 {
+			probe = reSimpleDiv.ReplaceAllString(string(b), "return b")
+		}
+		res = append(res, progCase{name: "repo:" + f, src: string(b), probeSrc: probe, usesDiv: textUsesDiv(string(b)),
 			usesMult: strings.Contains(reComment.ReplaceAllString(string(b), ""), "*")})
 	}
 	return res
@@ -395,7 +412,7 @@ func equiv(args []string) int {
 		cf.N = 0
 	} else if cf.Extra != "nocorpus" {
 		for _, fc := range fixedCorpus {
-			cases = append(cases, progCase{name: "fixed:" + fc.name, src: fc.src, corpus: true,
+			cases = append(cases, progCase{name: "fixed:" + fc.name, src: fc.src, corpus: true, probeSrc: fixedProbes[fc.name],
 				usesDiv: textUsesDiv(fc.src), usesMult: strings.Contains(fc.src, "*")})
 		}
 		for _, pc := range loadRepoCorpus(cf.Tier) {
@@ -406,7 +423,7 @@ func equiv(args []string) int {
 	for i := 0; i < cf.N; i++ {
 		r := rng.Fork()
 		p := genProgram(r, i)
-		cases = append(cases, progCase{name: fmt.Sprintf("gen:%d", i), src: p.source(false), gen: p,
+		cases = append(cases, progCase{name: fmt.Sprintf("gen:%d", i), src: p.source(false), gen: p, probeSrc: p.probeSource(),
 			usesDiv: p.usesDiv(), usesMult: p.feats["*"]})
 	}
 	var pairsMeta []map[string]any
@@ -545,21 +562,67 @@ func runProgram(o *hxlib.Out, r *hxlib.Rng, idx int, pc progCase, lim limits, pa
 	scratch := make([]uint64, maxw)
 	in := make([]uint64, nin)
 	failed := map[int]bool{}
+	divZeroSeen := map[int]bool{}
 	baseOut := make([]uint64, nout)
+	// probe: a circuit with the same inputs whose outputs are the divisors of
+	// the program's raw divisions; a lane on which a divisor is 0 is a
+	// division by zero, which has no defined meaning in MPCL
+	var probe *circuit.Circuit
+	if pc.probeSrc != "" {
+		if pr := compileReal(pc.probeSrc, cfgs[0]); pr.circ != nil && pr.circ.Inputs.Size() == nin {
+			probe = pr.circ
+			o.Count("programs_with_divisor_probe")
+			if probe.NumWires > len(scratch) {
+				scratch = make([]uint64, probe.NumWires)
+			}
+		} else {
+			o.Count("probe_compile_failed")
+		}
+	}
 	for p := 0; p < passes; p++ {
 		inputWords(r, nin, sizes, exhaustive, p, in)
 		copy(baseOut, simPass(base.circ, in, scratch))
 		o.CountN("sim_vectors", 64)
+		var zeroDiv uint64
+		if probe != nil {
+			po := simPass(probe, in, scratch)
+			ofs := 0
+			for _, sz := range argSizes(probe.Outputs) {
+				var nz uint64
+				for b := 0; b < sz; b++ {
+					nz |= po[ofs+b]
+				}
+				zeroDiv |= ^nz
+				ofs += sz
+			}
+		}
 		for _, i := range sim[1:] {
 			if failed[i] {
 				continue
 			}
 			out := simPass(res[i].circ, in, scratch)
 			o.CountN("sim_config_vectors", 64)
-			if lane := firstDiffLane(baseOut, out); lane >= 0 {
+			var diff uint64
+			for k := range out {
+				diff |= baseOut[k] ^ out[k]
+			}
+			if diff == 0 {
+				continue
+			}
+			// across targets a difference confined to division-by-zero lanes is
+			// classified separately; everything else is a plain mismatch
+			realDiff := diff
+			if cfgs[i].tgt != cfgs[0].tgt {
+				realDiff = diff &^ zeroDiv
+			}
+			if realDiff != 0 {
 				failed[i] = true
-				x := laneBits(in, lane)
-				reportMismatch(o, idx, pc, cfgs[0], cfgs[i], base.circ, res[i].circ, x, sizes, r)
+				x := laneBits(in, lowestLane(realDiff))
+				reportMismatch(o, idx, pc, cfgs[0], cfgs[i], base.circ, res[i].circ, x, sizes, false)
+			} else if !divZeroSeen[i] {
+				divZeroSeen[i] = true
+				x := laneBits(in, lowestLane(diff))
+				reportMismatch(o, idx, pc, cfgs[0], cfgs[i], base.circ, res[i].circ, x, sizes, true)
 			}
 		}
 	}
@@ -834,7 +897,18 @@ func simPair(o *hxlib.Out, r *hxlib.Rng, idx int, pc progCase, na, nb string, A,
 	o.Count("stage_pairs_simulated")
 }
 
-func reportMismatch(o *hxlib.Out, idx int, pc progCase, ca, cb config, A, B *circuit.Circuit, x []bool, sizes []int, r *hxlib.Rng) {
+func lowestLane(m uint64) int {
+	for lane := 0; lane < 64; lane++ {
+		if (m>>uint(lane))&1 == 1 {
+			return lane
+		}
+	}
+	return -1
+}
+
+// reportMismatch records a concrete input on which two configurations differ.
+// divZero: every differing vector of the pass had a zero divisor (probe).
+func reportMismatch(o *hxlib.Out, idx int, pc progCase, ca, cb config, A, B *circuit.Circuit, x []bool, sizes []int, divZero bool) {
 	d := map[string]any{"case": idx, "prog": pc.name, "src": pc.src, "config_a": ca.name, "config_b": cb.name,
 		"x": hxlib.BitsString(x), "args": argsString(x, sizes), "out_a": realCompute(A, x), "out_b": realCompute(B, x)}
 	sig := "c09-prune-mismatch"
@@ -842,28 +916,13 @@ func reportMismatch(o *hxlib.Out, idx int, pc progCase, ca, cb config, A, B *cir
 	case cb.tgt != ca.tgt:
 		sig = "c09-target-mismatch"
 		d["target"] = cb.tgt.String()
-		// attribute to the divider builders: for generated programs re-render
-		// with every / and % replaced and see whether the targets still
-		// disagree; for corpus programs only the textual flag is available.
 		d["uses_divmod"] = fmt.Sprint(pc.usesDiv)
-		d["divider_attributed"] = "false"
-		if pc.usesDiv && pc.gen != nil {
-			src2 := pc.gen.source(true)
-			y := compileReal(src2, ca)
-			g := compileReal(src2, cb)
-			if y.circ != nil && g.circ != nil && !differOnSamples(r, y.circ, g.circ, sizes) {
-				d["divider_attributed"] = "true"
-			}
-		} else if pc.usesDiv {
-			d["divider_attributed"] = "textual"
-		}
-		// cause: only the remaining known defect (inexact Goldschmidt divider)
-		// is attributed; it never leaves output wires undriven (that defect
-		// was fixed by 90ed06e: an undriven output is reported as unknown).
-		d["cause"] = "unknown"
 		d["gmw_undriven_outputs"] = undefinedOutputs(B)
-		if cb.tgt == utils.TargetGMW && pc.usesDiv && d["divider_attributed"] != "false" && undefinedOutputs(B) == 0 {
-			d["cause"] = "gmw-divider-inexact"
+		// the only attributed cause: a division by zero at this input (decided
+		// by the divisor probe evaluated on the same input vectors)
+		d["cause"] = "unknown"
+		if divZero {
+			d["cause"] = "division-by-zero"
 		}
 	case cb.thr != ca.thr:
 		sig = "c09-threshold-mismatch"
